@@ -169,5 +169,13 @@ def matchesSri (self other : Integrity) : Option Algo :=
     ((self.filter (fun h => h.algo == o.algo)).find?
       (fun h => (other.filter (fun i => i.algo == o.algo)).any (fun i => h == i))).map (·.algo)
 
+/-- The commit-time check of a declared integrity (`declared_integrity_matches`): the strongest
+algorithm of the declaration — its first hash; it is the one that addresses the content once the
+declaration is recorded — must be the algorithm the writer hashed with, and `matches` must hold. -/
+def declaredOk (declared computed : Integrity) : Option Algo :=
+  match declared, computed with
+  | d :: _, c :: _ => if d.algo == c.algo then matchesSri declared computed else none
+  | _, _ => none
+
 end Sri
 end Cacache
